@@ -148,7 +148,33 @@ def check_model(model, globals0, limit=LIMIT, validate=True, hosts=None):
             raise Violation('re-executing the same model with equal globals gives different observations', d, 're-execution')
         if model != before:
             raise Violation('execute_script modified the model on re-execution', d, 'model-modified')
+    _counter[0] += 1
+    if not hosts and _counter[0] % 3 == 0:
+        # the same model run by a host that supplies no globals (options without the member, or no options at all): every such run
+        # starts from empty globals, whatever earlier runs in this process left behind
+        try:
+            b0 = observe_ref(before, {}, limit, None)
+        except jumpvm.interp.Indeterminate:
+            return b
+        for how in ('no-globals-member', 'no-globals-member', 'no-options'):
+            if how == 'no-options' and b0[0][0] == 'runtime-error' and b0[0][1].startswith('Exceeded'):
+                continue        # (without options the default budget of 1e9 statements applies: not run)
+            logs = []
+            opts = {'logFn': lambda m: logs.append(('log', m)), 'maxStatements': limit} if how == 'no-globals-member' else None
+            try:
+                res = ('ok', impl.bs.execute_script(model, opts) if opts is not None else impl.bs.execute_script(model))
+            except impl.bs.RuntimeError as e:
+                res = ('runtime-error', str(e))
+            except Exception as e:  # pylint: disable=broad-except
+                res = ('host-exception', '%s: %s' % (type(e).__name__, e))
+            if res[0] != b0[0][0] or (res[0] == 'runtime-error' and res[1] != b0[0][1]) or (res[0] == 'ok' and not values_equal(res[1], b0[0][1], lambda x, y: True)) or \
+                    (opts is not None and logs != b0[1]):
+                raise Violation('run without caller-supplied globals (%s) ends with %r %r, the statement semantics from empty globals give %r %r' % (
+                    how, res, logs[:6], b0[0], b0[1][:6]), dict(d, how=how), 'no-globals-run')
     return b
+
+
+_counter = [0]
 
 
 # ---- random hand-built models -----------------------------------------------------------------------------------------
@@ -173,8 +199,15 @@ def random_model(rnd, size):
                 out.append(inc_stmt(rnd.choice(['n', 'k'])))
             elif k < 0.44:
                 out.append({'jump': {'label': rnd.choice(labels)}})
-            elif k < 0.5:
+            elif k < 0.47:
                 out.append({'jump': {'label': rnd.choice(labels), 'expr': rnd.choice([V('t0'), V('t1'), V('t0'), {'unary': {'op': '!', 'expr': V('t1')}}])}})      # a raw value as the condition
+            elif k < 0.48:
+                # a spreadsheet alias (abs, len ...) is not defined in a script - not in a jump condition either
+                out.append({'jump': {'label': rnd.choice(labels), 'expr': {'function': {'name': rnd.choice(['abs', 'len', 'max', 'round', 'text']), 'args': [V('n')]}}}})
+            elif k < 0.5:
+                # a variable set to a constant / read before it is assigned in this run (null in a fresh run)
+                out.append(rnd.choice([{'expr': {'name': 'w', 'expr': {'number': 7.0}}}, {'return': {'expr': V('w')}},
+                                       {'expr': {'expr': {'function': {'name': 'systemLog', 'args': [V('w')]}}}}]))
             elif k < 0.62:
                 out.append({'jump': {'label': rnd.choice(labels), 'expr': cond(rnd.choice(['n', 'k']), float(rnd.randint(1, 4)))}})
             elif k < 0.78:
